@@ -6,7 +6,8 @@ node; node `i`'s `next` pointer is `i+1` when that node exists and `nil` otherwi
 the `head` and `tail` pointers (chain indices) and the `len` counter.
 Threads: one program counter per shared-memory access of `Push`, `Pop`, `Len`, in
 source order; `PopWait(d)` with `d < 0` is `Pop` in a `Gosched` loop (`popYield`), with
-`d = 0` it is exactly one `Pop` (positive durations — ticker-driven — are not modelled).  `step` performs exactly ONE access of one thread (atomic accesses and
+`d = 0` it is exactly one `Pop`, with `d > 0` it is one `Pop`, then one `Pop` per tick until an
+environment-chosen expiry tick (`Call.popWaitT`; the timer is an input of the model).  `step` performs exactly ONE access of one thread (atomic accesses and
 the two plain accesses of `Pop` to `node.value`); `runtime.Gosched()` is a yield step.
 
 The order of the two statements after the successful link CAS in `Push` is a
@@ -27,6 +28,13 @@ inductive Call where
   `block = false` is `d = 0` (exactly one `Pop`).  Positive durations (ticker-driven
   retries) are not modelled. -/
   | popWait (block : Bool)
+  /-- `PopWait(d)` with `d > 0`: one immediate `Pop`, then one `Pop` per tick of the 10 ms
+  ticker until the tick on which `now.Sub(begin) >= d` is observed.  The timer is an INPUT of
+  the model: `ticks` = number of ticks up to and including that expiry tick (chosen by the
+  environment; any `Nat`), and WHEN a tick fires is the scheduler's choice (`popTick` step).
+  Returns the first successful `Pop`'s value, or false after the `Pop` on the expiry tick
+  failed. -/
+  | popWaitT (ticks : Nat)
 deriving DecidableEq, Repr
 
 inductive Order where
@@ -59,6 +67,7 @@ inductive Pc where
   | popAdd (v : Int)                 -- AddInt64(&l.len, -1)
   -- PopWait(d < 0): for { if v, ok := l.Pop(); ok { return v, ok }; runtime.Gosched() }
   | popYield                         -- runtime.Gosched() after a failed Pop of PopWait(d<0)
+  | popTick                          -- `now := <-ticker.C` of PopWait(d>0): waiting for the next tick
   -- Len(): LoadInt64(&l.len)
   | lenLoad
 deriving DecidableEq, Repr
@@ -68,6 +77,8 @@ structure Thread where
   prog : List Call
   /-- the call the thread is executing (`none` when idle) -/
   cur : Option Call
+  /-- `PopWait(d>0)`: ticks left before the expiry tick has been consumed (0 otherwise) -/
+  ticks : Nat
 deriving DecidableEq, Repr
 
 /-- the current call is `PopWait(d)` with `d < 0`: a failed `Pop` is retried after a
@@ -94,6 +105,7 @@ inductive Acc where
   | addLen (d : Int) (new : Int)
   | stTail (n : Nat)
   | yield
+  | tick                 -- receive from the ticker channel
   | ldHead (h : Nat)
   | casHead (h : Nat) (n : Option Nat) (ok : Bool)
   | rdVal (n : Nat) (v : Int)
@@ -119,16 +131,21 @@ def start : Call → Pc
   | .pop => .popLoadHead
   | .len => .lenLoad
   | .popWait _ => .popLoadHead
+  | .popWaitT _ => .popLoadHead
+
+def ticksOf : Call → Nat
+  | .popWaitT k => k
+  | _ => 0
 
 
 /-- The current call returned: continue with the next call of the program. -/
 def Thread.finish (th : Thread) : Thread :=
   match th.prog with
-  | [] => { pc := .idle, prog := [], cur := none }
-  | c :: rest => { pc := start c, prog := rest, cur := some c }
+  | [] => { pc := .idle, prog := [], cur := none, ticks := 0 }
+  | c :: rest => { pc := start c, prog := rest, cur := some c, ticks := ticksOf c }
 
 def mkThread (prog : List Call) : Thread :=
-  Thread.finish { pc := .idle, prog := prog, cur := none }
+  Thread.finish { pc := .idle, prog := prog, cur := none, ticks := 0 }
 
 def State.setPc (s : State) (i : Nat) (th : Thread) (pc : Pc) : State :=
   { s with threads := s.threads.set i { th with pc := pc } }
@@ -137,9 +154,14 @@ def State.fin (s : State) (i : Nat) (th : Thread) : State :=
   { s with threads := s.threads.set i th.finish }
 
 /-- The inner `Pop` of thread `i` failed (performing access `acc`): `Pop`, `PopWait(0)`
-return `(zero, false)`; `PopWait(d < 0)` goes to its `runtime.Gosched()` and retries. -/
+return `(zero, false)`; `PopWait(d < 0)` goes to its `runtime.Gosched()` and retries;
+`PopWait(d > 0)` waits for the next tick while ticks are left and returns `(zero, false)`
+when the failed `Pop` was the one of the expiry tick. -/
 def State.popFail (s : State) (i : Nat) (th : Thread) (acc : Acc) : State × Event :=
   if th.spin then (s.setPc i th .popYield, ⟨i, acc, none⟩)
+  else if 0 < th.ticks then
+    ({ s with threads := s.threads.set i { th with pc := .popTick, ticks := th.ticks - 1 } },
+      ⟨i, acc, none⟩)
   else (s.fin i th, ⟨i, acc, some (.pop 0 false)⟩)
 
 /-- One shared-memory access of thread `i`. -/
@@ -196,6 +218,7 @@ def step (ord : Order) (s : State) (i : Nat) : State × Event :=
     | .popClear n v => ({ s with chain := s.chain.set n 0 }.setPc i th (.popAdd v), ⟨i, .wrVal n, none⟩)
     | .popAdd v => ({ s with len := s.len - 1 }.fin i th, ⟨i, .addLen (-1) (s.len - 1), some (.pop v true)⟩)
     | .popYield => (s.setPc i th .popLoadHead, ⟨i, .yield, none⟩)
+    | .popTick => (s.setPc i th .popLoadHead, ⟨i, .tick, none⟩)
     | .lenLoad => (s.fin i th, ⟨i, .ldLen s.len, some (.len s.len)⟩)
 
 /-- Run a schedule (list of thread ids), collecting the events. -/
@@ -230,6 +253,7 @@ def Acc.src : Acc → Option SrcOp
   | .addLen d _ => some (.addLen d)
   | .stTail _ => some .storeTail
   | .yield => some .gosched
+  | .tick => some .ticker
   | .ldHead _ => some .loadHead
   | .casHead _ _ _ => some .casHead
   | .rdVal _ _ => some .readVal
